@@ -52,6 +52,11 @@ func contractMentions(c *Contract, id string) bool {
 	if hasID(c.nopanic, id) {
 		return true
 	}
+	for _, cl := range c.allocs {
+		if hasID(cl.ids, id) {
+			return true
+		}
+	}
 	for _, cls := range c.loops {
 		for _, cl := range cls {
 			if hasID(cl.ids, id) {
